@@ -94,6 +94,14 @@ if len(sys.argv) > 3 and sys.argv[3] == "perf":
                "  recursive call by a loop. The shortcut must be correct in the common case and wrong only in a specific situation\n"
                "  (an aliased node, a pruned entry, a value equal to an old one, a key that ends inside a node, a second object over the\n"
                "  same database, an aborted block, a re-used object).\n")
+if len(sys.argv) > 3 and sys.argv[3] == "api":
+    VARIANT = ("* Present each change as a small *API improvement*: a new optional parameter with a default (`default=`, `strict=`,\n"
+               "  `copy=`, `prune=`), an entry point that now accepts more input types (str keys encoded for the caller, ints, tuples of\n"
+               "  nibbles, iterables), a convenience method built on existing ones (`update(mapping)`, `pop`, `setdefault`, `clear`,\n"
+               "  `__len__`, `__iter__`, `copy`), a friendlier error message or exception type, a return value where there was none.\n"
+               "  The existing calls must keep working as the tests use them; the slip is in how the new path interacts with the old\n"
+               "  one (a default that is evaluated once, a conversion applied on one path only, a helper that bypasses validation or the\n"
+               "  pruning bookkeeping, a changed exception that an internal `except` clause relied on).\n")
 prop = [json.loads(l) for l in open(os.path.join(HERE, "properties.jsonl")) if json.loads(l)["id"] == pid][0]
 wt = "/tmp/wt/%s%s" % (pid, suffix)
 os.makedirs("/tmp/wt", exist_ok=True)
